@@ -336,6 +336,9 @@ def run(ctx, env):
     ctx.rule("R6.10", "packets of disallowed versions leave the caches untouched: every call of the V9 / IPFIX parser (the only functions through which a cache is written, R6.9) is reachable only through the true edge of the single allowed_versions gate of its dispatcher (shared with C12 R12.1)")
     from . import c12 as _c12
     _c12.gate_dominates_rule(ctx, prog, an, "R6.10")
+    ctx.rule("R6.11", "a data set (set id 255 and above, as this crate classifies them) never reaches a template parser, so data cannot define or redefine a template (shared with C05 R5.2)")
+    from . import c05 as _c05
+    _c05.set_id_dispatch_rule(ctx, prog, an, "R6.11", only_data=True)
     # R6.3
     for r in ca.reads:
         b, t, c = r["body"], r["term"], r["callee"]
